@@ -13,6 +13,8 @@ structure SrvIn where
   /-- connections whose handler is blocked dialling a black-holed upstream when shutdown begins: work on the
   tcp listener that never ends by itself (and that closing the inbound connection does not unblock) -/
   dial : Nat
+  /-- its route was removed and `proxy.CloseProxy` ran just before the shutdown: not registered any more -/
+  removed : Bool
 
 def parseTime (j : Json) : Except String Time :=
   match j with
@@ -32,7 +34,8 @@ def parseSrv (j : Json) : Except String SrvIn := do
   let work ← parseTimes j "work"
   let hwork ← parseTimes j "hwork"
   let dial := (j.getObjValAs? Nat "dial").toOption.getD 0
-  return { kind, work, hwork, dial }
+  let removed := (j.getObjValAs? Bool "removed").toOption.getD false
+  return { kind, work, hwork, dial, removed }
 
 def toServer (s : SrvIn) : Except String Server :=
   match s.kind with
@@ -96,12 +99,15 @@ def shutdownH : Handler := fun inp impl => do
   let sj ← inp.getObjVal? "servers"
   let sa ← sj.getArr?
   let srvs ← sa.toList.mapM parseSrv
-  let servers ← srvs.mapM toServer
+  let servers ← (srvs.filter (fun s => !s.removed)).mapM toServer
   let ret := shutdownReturn contract 0 wait servers
   let m := Json.mkObj [
     ("dur", Json.str (durStr (durClass 0 wait ret))),
     ("servers", Json.arr (srvs.map (fun s =>
         let (k1, k2) := leafKinds s
+        if s.removed then  -- `CloseProxy` = `srv.Close()`: every tunnel is cut on the spot
+          Json.mkObj [("work", Json.arr (s.work.map (fun _ => Json.str "cut")).toArray), ("hwork", Json.arr #[]), ("dial", Json.arr #[])]
+        else
         Json.mkObj [("work", fatesJson wait k1 s.work), ("hwork", fatesJson wait k2 s.hwork),
                     ("dial", fatesJson wait k1 (List.replicate s.dial none))])).toArray),
     ("accepted", Json.arr (srvs.map (fun _ => Json.bool false)).toArray)]
@@ -111,7 +117,7 @@ def shutdownH : Handler := fun inp impl => do
   let gOpen := kindsWith (fun s => s.kind == "grpc" && beyond wait s.work)
   let tOpen := kindsWith (fun s => (s.kind == "tcp" || s.kind == "sni" || s.kind == "inetaf") && beyond wait s.work)
   let hOpen := kindsWith (fun s => (s.kind == "http" && beyond wait s.work) || (s.kind == "inetaf" && beyond wait s.hwork))
-  let cls := if dOpen then "tcp-dial-pending" else if gOpen then "grpc-open-work" else if tOpen then "tcp-open-work" else if hOpen then "http-open-work"
+  let cls := if srvs.any (·.removed) then "route-removed-before-shutdown" else if dOpen then "tcp-dial-pending" else if gOpen then "grpc-open-work" else if tOpen then "tcp-open-work" else if hOpen then "http-open-work"
              else if nwork > 0 then "short-work-only" else "idle"
   let tag := if srvs.length > 1 then cls ++ "+mix" else cls
   match specOf wait srvs impl with
@@ -138,7 +144,8 @@ def processH : Handler := fun inp impl => do
         (impl.getObjValAs? Bool "order_ok").toOption, (impl.getObjValAs? Bool "short_completed").toOption with
   | some ex, some acc, some ord, some sh =>
     let sp := ex != "over" && !acc && ord && sh
-    let base := if dynamic then "dynamic" else "static"
+    let second := (inp.getObjValAs? String "second").toOption.getD ""
+    let base := (if dynamic then "dynamic" else "static") ++ (if second != "" then "+second-signal" else "")
     let tag := if acc then base ++ "-listener-accepts-after-shutdown" else if !sh then base ++ "-short-work-cut"
                else if !ord then base ++ "-closed-during-grace" else if ex == "over" then base ++ "-exit-late" else base
     return ({ model := m, agree := m == core, spec := sp, nontrivial := true, tag := tag } : Verdict).toJson
